@@ -30,13 +30,18 @@ CalledBases(site, sel) == { b \in Bases : Carriers(site, sel, b) # {} }
 Mono(site, sel)  == \E s \in SelSamples(site, sel) : Missing \in AllelesOf(site, s)
 Multi(site, sel) == \E s \in SelSamples(site, sel) : AllelesOf(site, s) \ (Bases \cup {Missing}) # {}
 IgnCalled(site, sel, ign) == \E b \in CalledBases(site, sel) : <<site.ref, b>> \in ign
+(* single-character alleles that are not nucleotides (spanning deletion '*', unknown base 'N'): the code treats them  *)
+(* as bases, the statement says nothing about them: a site where a selected sample carries one is "either"         *)
+Odd == {"*", "N"}
+OddCarried(site, sel) == \E s \in SelSamples(site, sel) : AllelesOf(site, s) \cap Odd # {}
 IgnAny(site, ign) == \E a \in SeqSet(site.alts) : <<site.ref, a>> \in ign
 NonSNVRecord(site) == site.ref \notin Bases \/ \E a \in SeqSet(site.alts) : a \notin Bases
 
 (* P-level classification of a site for a configuration *)
 Class(site, sel, ign) ==
     LET cb == CalledBases(site, sel) IN
-    IF cb = {} THEN "drop"                                                     \* nobody selected carries a single base
+    IF OddCarried(site, sel) THEN "either"
+    ELSE IF cb = {} THEN "drop"                                                \* nobody selected carries a single base
     ELSE IF ~Mono(site, sel) /\ (Multi(site, sel) \/ Cardinality(cb) < 2) THEN "drop"   \* not a SNV site / uninformative
     ELSE IF IgnCalled(site, sel, ign) THEN "drop"                              \* involves an ignored conversion
     ELSE IF Mono(site, sel) /\ Multi(site, sel) THEN "either"
@@ -67,7 +72,8 @@ Letters == <<"U", "V", "W", "X", "Y", "Z">>
 ULetters(site, b) == { Letters[i] : i \in { k \in DOMAIN AllelesOfRecord(site) : k <= 6 /\ AllelesOfRecord(site)[k] = b } }
 UIgn(site, ign) == \E a \in SeqSet(site.alts) \cap Bases : <<site.ref, a>> \in ign
 UClass(site, ign) ==
-    IF site.ref \notin Bases THEN "drop"
+    IF site.ref \in Odd THEN "either"
+    ELSE IF site.ref \notin Bases THEN "drop"
     ELSE IF UIgn(site, ign) THEN "drop"
     ELSE IF site.alts = <<>> \/ \E a \in SeqSet(site.alts) : a \notin Bases THEN "either"
     ELSE "store"
